@@ -3,6 +3,8 @@ package main
 import (
 	"bytes"
 	"fmt"
+	"sort"
+	"strings"
 
 	"github.com/jsightapi/jsight-schema-go-library/fs"
 
@@ -146,4 +148,163 @@ func runC02(ctx *Ctx) {
 	c02Pipeline(ctx, r)
 }
 
-func c02Pipeline(ctx *Ctx, r *Rng) {}
+
+// ---- pipeline diagnostics in multi-file projects: file, index, line, quote and include trace
+
+type incEdge struct {
+	parent string
+	line   int // 1-based line of the INCLUDE directive in the parent
+}
+
+// includeEdges parses the files of a cut project: child file -> (including file, line of the INCLUDE)
+func includeEdges(files map[string][]byte) map[string][]incEdge {
+	out := map[string][]incEdge{}
+	for name, content := range files {
+		dir := ""
+		if i := strings.LastIndex(name, "/"); i >= 0 {
+			dir = name[:i]
+		}
+		for li, l := range strings.Split(string(content), "\n") {
+			f := strings.Fields(l)
+			if len(f) >= 2 && f[0] == "INCLUDE" {
+				out[joinRel(dir, f[1])] = append(out[joinRel(dir, f[1])], incEdge{name, li + 1})
+			}
+		}
+	}
+	return out
+}
+
+func c02Pipeline(ctx *Ctx, r *Rng) {
+	n := ctx.Budget(300, 20000)
+	cases := 0
+	for i := 0; i < n && len(ctx.Violations) < 12; i++ {
+		m := GenModel(r)
+		base, _ := m.Render(PlainStyle(), true)
+		if !RunProject(SingleFile(base), false).Accepted() {
+			continue
+		}
+		c := &cutter{r: r.Fork(), files: map[string][]byte{}}
+		root := c.cutBlocks("", splitTopBlocks(string(base)), 0)
+		c.files["root.jst"] = []byte(root)
+		edges := includeEdges(c.files)
+		// inject one fault at the end of a random file: an early (scanner) fault or a late (catalog) fault
+		var names []string
+		for k := range c.files {
+			names = append(names, k)
+		}
+		sort.Strings(names)
+		target := names[r.Intn(len(names))]
+		late := r.Bool()
+		old := string(c.files[target])
+		faultLine := strings.Count(old, "\n") + 1
+		var fault string
+		if late {
+			fault = fmt.Sprintf("TYPE @dup%d\n{}\nTYPE @dup%d\n{}\n", i, i)
+			faultLine += 2 // the second TYPE is the offending directive
+		} else {
+			fault = "?not a directive\n"
+			faultLine = 1
+		}
+		endsInText := false
+		if ll := strings.Split(strings.TrimRight(old, "\n"), "\n"); len(ll) > 0 {
+			for k := len(ll) - 1; k >= 0; k-- {
+				kw := keywordOf(ll[k])
+				if kw == "Description" {
+					endsInText = true
+				}
+				if len(kw) > 0 && (kw[0] >= 'A' && kw[0] <= 'Z') && kw != "Description" && indentOf(ll[k]) < 4 {
+					break
+				}
+				if kw == "Description" {
+					break
+				}
+			}
+		}
+		if late && endsInText {
+			continue
+		}
+		if late {
+			c.files[target] = []byte(old + fault)
+		} else {
+			if target == "root.jst" {
+				continue
+			}
+			c.files[target] = []byte(fault + old)
+		}
+		p := Project{Files: c.files, Root: "root.jst"}
+		res := RunProject(p, false)
+		cases++
+		var key []byte
+		for _, k := range names {
+			key = append(append(key, k...), c.files[k]...)
+		}
+		ctx.Cov.Count(key, len(c.files) >= 2 && target != "root.jst")
+		ctx.Cov.Hit(map[bool]string{true: "late fault (directive level)", false: "early fault (scanner level)"}[late])
+		in := projectInput(p)
+		in["op"] = "project"
+		in["fault_file"] = target
+		if res.Err == nil {
+			if res.Panic == "" {
+				ctx.Violate(Violation{Kind: "wrong-output", Site: "diagnostics", What: "a project with an injected fault is accepted", Input: in, Signature: "fault-accepted"})
+			}
+			continue
+		}
+		e := res.Err
+		if e.File != target || int(e.Line) != faultLine {
+			ctx.Violate(Violation{Kind: "wrong-output", Site: "diagnostics", What: fmt.Sprintf("fault injected at %s:%d is reported at %s:%d (%s)", target, faultLine, e.File, e.Line, e.Msg), Input: in,
+				Observed: fmt.Sprintf("%s:%d", e.File, e.Line), Expected: fmt.Sprintf("%s:%d", target, faultLine), Signature: "fault-location"})
+			continue
+		}
+		if int(e.Index) > len(c.files[target]) {
+			ctx.Violate(Violation{Kind: "wrong-output", Site: "diagnostics", What: fmt.Sprintf("index %d beyond the end of %s (%d bytes)", e.Index, target, len(c.files[target])), Input: in, Signature: "index-out-of-file"})
+		}
+		// expected include trace: innermost first, each entry = (including file, line of its INCLUDE)
+		var want []TraceItem
+		cur := target
+		okChain := true
+		for cur != "root.jst" {
+			ee := edges[cur]
+			if len(ee) != 1 {
+				okChain = false
+				break
+			}
+			want = append(want, TraceItem{Path: ee[0].parent, Line: uint(ee[0].line)})
+			cur = ee[0].parent
+		}
+		if !okChain {
+			continue
+		}
+		if fmt.Sprint(e.Trace) != fmt.Sprint(want) {
+			// F8: the tracer is cached per including file: a directive of a file included by the SECOND (or later)
+			// INCLUDE of one file carries the line of the FIRST one
+			sig := "trace-wrong"
+			if len(e.Trace) == len(want) {
+				cached := true
+				for k := range want {
+					if e.Trace[k].Path != want[k].Path {
+						cached = false
+					} else if e.Trace[k].Line != want[k].Line {
+						// is it the line of an earlier INCLUDE in the same including file?
+						earlier := false
+						for _, ee := range edges {
+							for _, x := range ee {
+								if x.parent == want[k].Path && uint(x.line) == e.Trace[k].Line && x.line < int(want[k].Line) {
+									earlier = true
+								}
+							}
+						}
+						if !earlier {
+							cached = false
+						}
+					}
+				}
+				if cached && late {
+					sig = "F8-trace-cached-per-includer"
+				}
+			}
+			ctx.Violate(Violation{Kind: "wrong-output", Site: "scanner.Stack.ToDirectiveIncludeTracer", What: fmt.Sprintf("include trace %v, the files say %v (fault in %s)", e.Trace, want, target), Input: in,
+				Observed: fmt.Sprint(e.Trace), Expected: fmt.Sprint(want), Signature: sig})
+		}
+	}
+	ctx.Cov.Component("located diagnostics and include traces of injected faults in cut projects (specification on the implementation)", cases, len(ctx.Violations), "")
+}
